@@ -104,15 +104,15 @@ Qed.
 
 (* errors, once recorded, stay: every operation of the parser only adds to the error list *)
 Definition CE : pcfg :=
-  {| cInv := fun s => ps_errors s <> []; cWeak := fun s => ps_errors s <> []; cRel := fun _ _ => True; cPanicOk := True |}.
+  {| cInv := fun s => ps_errors s <> []; cWeak := fun s => ps_errors s <> []; cRel := fun _ _ => True; cPanicOk := True; cFuelOk := True |}.
 Lemma CE_rel : prel_ok CE.
 Proof. constructor; cbn; auto. Qed.
 Lemma CE_frame {A} (m : PM A) :
   (forall s a s', m s = POk (a, s') -> ps_errors s' = ps_errors s) -> spec CE m.
-Proof. intros Hm. apply post_partial; [exact I|]. cbn. intros s Hs a s' E. rewrite (Hm _ _ _ E). auto. Qed.
+Proof. intros Hm. apply post_partial; [exact I|exact I|]. cbn. intros s Hs a s' E. rewrite (Hm _ _ _ E). auto. Qed.
 Lemma CE_step {A} (m : PM A) :
   (forall s a s', m s = POk (a, s') -> ps_errors s <> [] -> ps_errors s' <> []) -> spec CE m.
-Proof. intros Hm. apply post_partial; [exact I|]. cbn. intros s Hs a s' E. split; eauto. Qed.
+Proof. intros Hm. apply post_partial; [exact I|exact I|]. cbn. intros s Hs a s' E. split; eauto. Qed.
 
 Lemma next_token_loop_errors_stay items : forall s o s',
   p_next_token_loop items s = (o, s') -> ps_errors s <> [] -> ps_errors s' <> [].
@@ -174,7 +174,7 @@ Proof.
   - intros b. apply CE_frame. intros s a s'. unfold p_debug_assert_advanced. destruct (_ && _); try discriminate.
     intros [= <- <-]. auto.
 Qed.
-Definition CE_ok : pcfg_ok CE := atoms_cfg_ok CE CE_atoms.
+Definition CE_ok : pcfg_ok CE := atoms_cfg_ok CE CE_atoms I.
 
 Lemma errors_stay {A} (m : PM A) s a s' :
   spec CE m -> m s = POk (a, s') -> ps_errors s' = [] -> ps_errors s = [].
